@@ -234,9 +234,31 @@ impl ReassignmentPath {
     }
 }
 
+impl Dependencies for ReassignmentPath {
+    /// The names a write path reads: its root, and whatever its indexes and call arguments use.
+    fn dependencies(&self) -> Vec<super::Dependency> {
+        match self {
+            Self::Ident(ident) => ident.net_dependencies(),
+            Self::ReferenceToSelf(_) => vec![],
+            Self::Index { lhs, index } => {
+                let mut result = lhs.net_dependencies();
+                result.append(&mut index.net_dependencies());
+                result
+            }
+            Self::DotLookup { lhs, dot_chain, .. } => {
+                let mut result = lhs.net_dependencies();
+                result.append(&mut dot_chain.net_dependencies());
+                result
+            }
+        }
+    }
+}
+
 impl Dependencies for Reassignment {
     fn dependencies(&self) -> Vec<super::Dependency> {
-        self.value.net_dependencies()
+        let mut result = self.path.net_dependencies();
+        result.append(&mut self.value.net_dependencies());
+        result
     }
 }
 
